@@ -30,7 +30,7 @@ def main(ck):
       '(rendezvous barrier inside the task function), not an exhaustive schedule enumeration',
       'arena alignments are limited to <= 64 (the documented alignment of the arena base)',
       '"no spurious exhaustion" allows 64 bytes of red-zone bookkeeping per stack block in the ASan build']
-  nseq_rel, nseq_asan, npipe = ck.budget(750, 60000), ck.budget(300, 30000), ck.budget(24, 3000)
+  nseq_rel, nseq_asan, npipe = ck.budget(750, 40000), ck.budget(300, 12000), ck.budget(24, 480)
   shards = 3 if ck.quick else 14
   jobs_rel, jobs_asan = [], []
   for s in range(shards):
